@@ -1,7 +1,9 @@
 """--parse-only cannot add metaclass=ABCMeta to a subclass that leaves abstract methods unimplemented; mypy rejects it in a stub.
 
 Exit status 1 = defect present, 0 = absent, 2 = inconclusive (preconditions of the input failed).
-Mechanism keys: stub-typecheck:parse-only:misc:Class _ has abstract attributes "_":class, stub-typecheck:parse-only:misc:Class _ has abstract attributes "_", ...:class"""
+Mechanism keys:
+  stub-typecheck:parse-only:misc:Class _ has abstract attributes ...:class
+"""
 import os
 import sys
 
@@ -18,6 +20,5 @@ class Partial(Base):
     def other(self) -> int:
         return 1
 '''
-EXPECT = ['stub-typecheck:parse-only:misc:Class _ has abstract attributes "_":class',
- 'stub-typecheck:parse-only:misc:Class _ has abstract attributes "_", ...:class']
+EXPECT = ['stub-typecheck:parse-only:misc:Class _ has abstract attributes ...:class']
 run(FILES, 'po', EXPECT, what=__doc__.splitlines()[0])
